@@ -674,7 +674,8 @@ def coverage(ctx, cases, impl, rule, extra_classes=None):
 # ------------------------------------------------------------------------------------------ sessions with commands
 # a script case is (link, units, auth, script): script entries are frames (tx, dest, pdu) or one of
 # '@min' '@max' (ChangeDecoding), '@shutdown', '@close' (command channel closed), '@block' (writes pend),
-# '@unblock'. While blocked, a frame is followed only by commands until it is resolved.
+# '@unblock', '@failwrite' (the reply write of the next frame fails). While blocked, a frame is followed only
+# by commands until it is resolved.
 def gen_script(r, link):
     base = gen_session(r, link, nframes=r.choice([1, 2, 3, 4, 6]), big_ok=False, raw=0.05)
     script = []
@@ -684,7 +685,10 @@ def gen_script(r, link):
             script.append(r.choice(['@min', '@max']))
         if r.random() < 0.04:
             script.append(r.choice(['@shutdown', '@close']))
-        if r.random() < 0.35:
+        if r.random() < 0.06:
+            script.append('@failwrite')
+            script.append(f)
+        elif r.random() < 0.35:
             script.append('@block')
             script.append(f)
             for _ in range(r.choice([0, 0, 1, 2, 3])):
@@ -719,6 +723,7 @@ def script_coq(case):
     assert base.endswith(', [])')
     evs = []
     blocked = False
+    failing = False
     for x in script:
         if isinstance(x, str):
             if x in ('@min', '@max'):
@@ -727,6 +732,8 @@ def script_coq(case):
                 evs.append('ECommand Shutdown')
             elif x == '@close':
                 evs.append('EClosed')
+            elif x == '@failwrite':
+                failing = True
             elif x == '@block':
                 blocked = True
             elif x == '@unblock':
@@ -737,7 +744,10 @@ def script_coq(case):
             d = 'DBroadcast' if (link == 'rtu' and dest == 0) else f'(DUnit {dest})'
             t = 'None' if tx is None else f'(Some {tx})'
             evs.append(f'EFrame (mkf {t} {d} {_nl(pdu)})')
-            if not blocked:
+            if failing:
+                evs.append('EWriteFailed')
+                failing = False
+            elif not blocked:
                 evs.append('EWriteDone')
     return base[:-len('[])')] + '[' + ';'.join(evs) + '])'
 
